@@ -48,12 +48,26 @@ class Events:
         self.ids = {id(rep.lparse_cache): cid for rep, cid in zip(dump.keep, range(len(dump.keep)))}
         self.log = []
         self.on = False
+        self.source = None       # the source of the request in progress (for the key audit)
+        self.bad_keys = []
+
+    def audit(self, key):
+        """the model's cache key is (source text, offset): the library's must be exactly that — a 2-tuple of the request's
+        source (or, for an exclusion test, a piece of it) and an offset into it"""
+        ok = (isinstance(key, tuple) and len(key) == 2 and isinstance(key[0], str) and isinstance(key[1], int)
+              and not isinstance(key[1], bool) and 0 <= key[1] <= len(key[0]))
+        if ok and self.source is not None:
+            ok = key[0] == self.source or key[0] in self.source
+        if not ok and len(self.bad_keys) < 5:
+            self.bad_keys.append(repr(key)[:120])
 
     def install(self):
         ev = self
         og, os_ = ParseCache.__getitem__, ParseCache.__setitem__
 
         def gi(self, key):
+            if ev.on and id(self) in ev.ids:
+                ev.audit(key)
             try:
                 v = og(self, key)
             except KeyError:
@@ -66,6 +80,7 @@ class Events:
 
         def si(self, key, value):
             if ev.on and id(self) in ev.ids:
+                ev.audit(key)
                 ev.log.append(f"S{ev.ids[id(self)]},{key[1]},{pyimpl.cps(key[0])}" + ("!" if isinstance(value, P.ParseError) else ""))
             return os_(self, key, value)
 
@@ -109,9 +124,43 @@ def c08_case(seed, k):
     return {"seed": seed, "index": k, "grammar": g, "dflt": dflt, "ops": ops}
 
 
+def c08_fixed():
+    """hand-picked histories (run by the shard with seed % 100 == 0)"""
+    L = lambda cs, t: ["lit", cs, t]  # noqa: E731
+    out = []
+    # a request cut short by GrammarError (an undefined rule below an option), then the same request again and others: the
+    # aborted computation must leave nothing in the caches that answers later requests
+    g1 = {"rules": [{"name": "top", "def": ["alt", 0, [["cat", [["opt", ["ref", "missing"]], L(0, "b")]], L(0, "a")]], "excl": None},
+                    {"name": "wrap", "def": ["rep", 0, 2, ["ref", "top"]], "excl": None},
+                    {"name": "missing", "def": None, "excl": None}], "alpha": ["a", "b"]}
+    out.append({"seed": 0, "index": "aborted-by-grammar-error", "grammar": g1, "dflt": None,
+                "ops": [("req", 2, "top", "a", 0), ("req", 2, "top", "a", 0), ("req", 0, "top", "b", 0), ("req", 0, "top", "b", 0),
+                        ("req", 0, "wrap", "ab", 0), ("req", 0, "wrap", "ab", 0), ("req", 1, "wrap", "aa", 0), ("req", 2, "top", "a", 0)]})
+    # more than 256 match ends at one offset, the continuation only reachable after backing off by almost all of them; asked cold
+    # and warm, under no limit and under limit 1
+    vch = ["range", 0x21, 0x7E]
+    g2 = {"rules": [{"name": "pair", "def": ["cat", [["ref", "key"], L(0, "="), ["ref", "value"]]], "excl": None},
+                    {"name": "key", "def": ["rep", 1, None, vch], "excl": None},
+                    {"name": "value", "def": ["rep", 0, None, vch], "excl": None}], "alpha": ["k", "=", "v"]}
+    s2 = "k=" + "v" * 300
+    for dflt in (None, 1):
+        out.append({"seed": 0, "index": f"many-ends-warm-{dflt}", "grammar": g2, "dflt": dflt,
+                    "ops": [("req", 1, "pair", s2, 0), ("req", 1, "pair", s2, 0), ("req", 2, "pair", s2, 0), ("req", 2, "pair", s2, 0),
+                            ("req", 0, "key", s2, 0), ("req", 2, "pair", s2, 0)]})
+    # sources longer than 4096 characters (too long for the model: compared with a cold twin; the key audit applies)
+    g3 = {"rules": [{"name": "top", "def": ["cat", [["rep", 0, None, ["alt", 0, [L(0, "a"), L(0, "b")]]], L(0, "c")]], "excl": None}],
+          "alpha": ["a", "b", "c"]}
+    a1, a2, a3 = "ab" * 2100 + "c", "ba" * 2100 + "c", "ab" * 2100 + "d"
+    out.append({"seed": 0, "index": "long-sources", "grammar": g3, "dflt": None, "impl_only": True,
+                "ops": [("req", 2, "top", a1, 0), ("req", 2, "top", a2, 0), ("req", 2, "top", a3, 0), ("req", 2, "top", a1, 0),
+                        ("req", 1, "top", a2, 0)]})
+    return out
+
+
 def run_c08(cases):
     lines, plan, stats = [], [], {"requests": 0, "hits": 0, "misses": 0, "sets": 0, "clears": 0, "limit_changes": 0,
                                   "err_sets": 0}
+    extra_mism = []
     for c in cases:
         saved = ParseCache.max_cache_size
         ParseCache.max_cache_size = c["dflt"]
@@ -121,8 +170,11 @@ def run_c08(cases):
             ParseCache.max_cache_size = saved
         d = pyimpl.Dump()
         names = [r["name"] for r in c["grammar"]["rules"]]
-        lines.append(d.grammar([objs[n] for n in names]))
-        lines.append("HNEW " + str(-1 if c["dflt"] is None else c["dflt"]))
+        gline = d.grammar([objs[n] for n in names])
+        impl_only = bool(c.get("impl_only"))
+        if not impl_only:
+            lines.append(gline)
+            lines.append("HNEW " + str(-1 if c["dflt"] is None else c["dflt"]))
         ev = Events(d)
         ev.install()
         try:
@@ -131,15 +183,30 @@ def run_c08(cases):
                 if op[0] == "req":
                     _, kind, name, s, i = op
                     ev.log = []
+                    ev.source = s
                     ev.on = True
                     try:
-                        with pyimpl.time_limit(1.0):
+                        with pyimpl.time_limit(1.0 if isinstance(c["index"], int) else 60.0):
                             res = req_impl(objs, kind, name, s, i)
                     except pyimpl.SlowCase:
                         ev.on = False
                         stats["slow_cases"] = stats.get("slow_cases", 0) + 1
                         break
                     ev.on = False
+                    if ev.bad_keys:
+                        extra_mism.append({"class": "cache-key", "op": [op[0], kind, name, s[:60] + ("..." if len(s) > 60 else ""), i],
+                                           "what": "a cache key is not (source text, offset): " + "; ".join(ev.bad_keys), "case": dict(c, ops=[])})
+                        ev.bad_keys = []
+                    if impl_only:
+                        # too long for the model: the answer of the warm objects vs a cold twin built for this one request
+                        tcls, tobjs = pyimpl.build_grammar(c["grammar"])
+                        cold = req_impl(tobjs, kind, name, s, i)
+                        stats["requests"] += 1
+                        stats["impl_only_requests"] = stats.get("impl_only_requests", 0) + 1
+                        if cold != res:
+                            extra_mism.append({"class": "result", "op": [op[0], kind, name, s[:60] + "...", i], "impl": res[:300],
+                                               "cold_twin": cold[:300], "case": dict(c, ops=[])})
+                        continue
                     rid = d.rids[id(objs[name])]
                     lines.append(" ".join(["HREQ", str(kind), str(rid), str(i)] + pyimpl.str_tokens(s)))
                     plan.append((c, op, res + " # " + " ".join(ev.log)))
@@ -164,7 +231,7 @@ def run_c08(cases):
         finally:
             ev.restore()
     outs = [x for x in driver(lines)]
-    mism = []
+    mism = list(extra_mism)
     distinct = set()
     stats["event_order_not_comparable"] = 0
     for (c, op, impl), model in zip(plan, outs):
@@ -237,8 +304,24 @@ def c13_case(seed, k):
     inputs = gen.gen_inputs(rng, g, n_derived=3, n_mut=2, n_rand=2, maxlen=8)[:8]
     referenced = sorted({x for r in g["rules"] for x in gen.refs_of(r["def"], set())})
     # ONE kind of mutation per case (each kind has its own invalidation site), rotating with the case index
-    kind = ["redefine", "extend", "flag", "exclude", "construct", "mixed", "exclude2", "load_fail", "load_ok"][k % 9]
+    kind = ["redefine", "extend", "flag", "exclude", "construct", "mixed", "exclude2", "load_fail", "load_ok", "excluded-target"][k % 10]
     muts = []
+    if kind == "excluded-target" and len(names) >= 2:
+        # an exclusion "host excludes guest" is in force from the start; the mutation then changes the EXCLUDED rule (or a rule
+        # below it): every verdict "this text is / is not excluded" obtained during the warm-up is out of date afterwards
+        host, guest = rng.sample(names, 2)
+        for r in g["rules"]:
+            if r["name"] == host:
+                r["excl"] = guest
+        for _ in range(50):
+            nd = gen.gen_expr(rng, 2, names, g["alpha"])
+            if renderable(nd):
+                break
+        else:
+            nd = ["lit", 0, "a"]
+        muts.append([rng.choice(["redefine", "extend"]), guest, nd])
+        inputs = gen.gen_inputs(rng, g, n_derived=3, n_mut=2, n_rand=2, maxlen=8)[:8]
+        return {"seed": seed, "index": k, "grammar": g, "inputs": inputs, "muts": muts, "clear_between": rng.random() < 0.3}
     for _ in range(rng.randint(1, 2)):
         kd = rng.choice(["redefine", "extend", "flag", "exclude", "construct"]) if kind == "mixed" else kind
         tgt = rng.choice(referenced) if referenced and rng.random() < 0.7 else rng.choice(names)
@@ -276,7 +359,7 @@ def c13_case(seed, k):
         else:
             other = rng.choice([n for n in names if n != tgt] or names)
             muts.append(["exclude", tgt, other])
-    return {"seed": seed, "index": k, "grammar": g, "inputs": inputs, "muts": muts}
+    return {"seed": seed, "index": k, "grammar": g, "inputs": inputs, "muts": muts, "clear_between": rng.random() < 0.4}
 
 
 PREBUILT = {}
@@ -357,10 +440,16 @@ def run_c13(cases):
             names = [r["name"] for r in g["rules"]]
             before = {}
             with pyimpl.time_limit(5.0):
-                for s in c["inputs"]:          # warm-up: fills the caches under the OLD grammar
-                    for n in names:
-                        for i in range(len(s) + 1):
-                            before[(n, s, i)] = pyimpl.run_lparse(objs[n], s, i)
+                for rnd in range(2 if c.get("clear_between") else 1):
+                    if rnd == 1:
+                        # the public "release the caches" call in the middle of the history, then the caches are filled again:
+                        # the grammar change that follows must still make every one of them stale
+                        ParseCache.clear_caches()
+                        stats["clear_between"] = stats.get("clear_between", 0) + 1
+                    for s in c["inputs"]:          # warm-up: fills the caches under the OLD grammar
+                        for n in names:
+                            for i in range(len(s) + 1):
+                                before[(n, s, i)] = pyimpl.run_lparse(objs[n], s, i)
             for m in c["muts"]:
                 apply_mut(cls, objs, m, rng)
                 stats["mutations"][m[0]] = stats["mutations"].get(m[0], 0) + 1
@@ -406,7 +495,11 @@ def run_c13(cases):
 class Stepper:
     """runs requests in threads that stop before EVERY cache operation until the schedule grants a step"""
 
-    def __init__(self):
+    def __init__(self, after=False):
+        # after=True: a second stop right AFTER each cache operation has returned, before the caller touches the result (in the
+        # model a returned value is immutable, so "after this operation" and "before the next one" coincide; in the library the
+        # returned match set is the very object held by the cache)
+        self.after = after
         self.local = threading.local()
         self.cv = threading.Condition()
         self.turn = None          # thread index allowed to perform ONE cache op
@@ -432,11 +525,19 @@ class Stepper:
 
         def gi(self, key):
             st.gate()
-            return og(self, key)
+            try:
+                return og(self, key)
+            finally:
+                if st.after:
+                    st.gate()
 
         def si(self, key, value):
             st.gate()
-            return os_(self, key, value)
+            try:
+                return os_(self, key, value)
+            finally:
+                if st.after:
+                    st.gate()
 
         ParseCache.__getitem__, ParseCache.__setitem__ = gi, si
         self.restore = lambda: (setattr(ParseCache, "__getitem__", og), setattr(ParseCache, "__setitem__", os_))
@@ -559,11 +660,51 @@ def line_level_fixed(stats, mism):
                         return
 
 
+def mass_suspension(stats, mism, n=600):
+    """hundreds of match listings are opened, advanced by one item and left suspended (all still referenced); ordinary requests
+    issued meanwhile, the continuation of some suspended listings, and requests issued after all of them were dropped must
+    give the sequential results: whatever a request keeps while it is in progress must not add up across requests"""
+    import gc
+    L = lambda t: ["lit", 0, t]  # noqa: E731
+    g = {"rules": [{"name": "word", "def": ["rep", 1, None, ["range", 97, 122]], "excl": None},
+                   {"name": "pair", "def": ["cat", [["ref", "word"], ["opt", ["cat", [L("-"), ["ref", "pair"]]]]]], "excl": None}],
+         "alpha": ["a", "b", "-"]}
+    reqs = [(0, "word", "abc", 0), (1, "pair", "ab-cd-e", 0), (2, "pair", "ab-cd", 0), (0, "pair", "a-b-c-d-e-f", 2)]
+    cls0, objs0 = pyimpl.build_grammar(g)
+    want = [req_impl(objs0, *q) for q in reqs]
+    want_list = pyimpl.run_lparse(objs0["word"], "abcdef", 0)
+    cls, objs = pyimpl.build_grammar(g)
+    gens = [objs["word" if k % 2 else "pair"].lparse("abcdef", 0) for k in range(n)]
+    firsts = []
+    for k, gq in enumerate(gens):
+        try:
+            firsts.append(next(gq))
+        except Exception as e:  # noqa: BLE001
+            mism.append({"class": "mass-suspension", "what": f"opening listing number {k + 1} raised {pyimpl.exc_name(e)}", "case": {"grammar": g}})
+            return
+    for phase in ("while %d listings are suspended" % n, "after they were dropped"):
+        got = [req_impl(objs, *q) for q in reqs]
+        for q, a_, b_ in zip(reqs, got, want):
+            if a_ != b_:
+                mism.append({"class": "mass-suspension", "what": phase, "request": q, "got": a_[:300], "sequential": b_[:300], "case": {"grammar": g}})
+                return
+        if phase.startswith("while"):
+            rest = [firsts[1]] + list(gens[1])
+            if pyimpl.canon_matches(rest) != want_list:
+                mism.append({"class": "mass-suspension", "what": "a suspended listing continued after the others were opened", "got": pyimpl.canon_matches(rest)[:300],
+                             "sequential": want_list[:300], "case": {"grammar": g}})
+                return
+            del gens, firsts, rest, gq
+            gc.collect()
+    stats["mass_suspension_listings"] = n
+
+
 def run_c17(cases, exhaustive_upto=7):
     mism, stats = [], {"schedules": 0, "steps": 0, "exhaustive_cases": 0, "random_schedules": 0, "requests": 0,
                        "generator_scripts": 0, "stress_runs": 0}
     distinct = set()
     line_level_fixed(stats, mism)
+    mass_suspension(stats, mism)
     for c in cases:
         g = c["grammar"]
         # sequential reference on a cold twin
@@ -611,14 +752,20 @@ def run_c17(cases, exhaustive_upto=7):
         # abandonment: schedules that starve thread 0 until the very end are included by construction (drain phase)
         scheds.append([1] * total)
         scheds.append([0] * total)
-        for sch in scheds[:40]:
+        plain = [(sch, False) for sch in scheds[:40]]
+        # the same with a stop AFTER each cache operation as well (twice as many stops): random schedules, and with a size limit
+        # more often than not, so that another thread's stores evict the entry a parked thread has just been handed
+        extra = [([rng.randrange(len(c["reqs"])) for _ in range(2 * total + 4)], True) for _ in range(5)]
+        for sch, after in plain + extra:
             cls, objs = pyimpl.build_grammar(g)
-            if c["limit"] is not None:
+            limit = c["limit"] if not after else (c["limit"] if c["limit"] is not None else rng.choice([None, 1, 1, 2]))
+            if limit is not None:
                 dd = pyimpl.Dump()
                 dd.grammar([objs[r["name"]] for r in g["rules"]])
                 for rep in dd.keep:
-                    rep.lparse_cache.max_size = c["limit"]
-            stp = Stepper()
+                    rep.lparse_cache.max_size = limit
+            stats["after_op_schedules"] = stats.get("after_op_schedules", 0) + after
+            stp = Stepper(after=after)
             stp.install()
             try:
                 thunks = [(lambda q=q: req_impl(objs, *q)) for q in c["reqs"]]
@@ -631,7 +778,7 @@ def run_c17(cases, exhaustive_upto=7):
             distinct.add((json.dumps(g["rules"]), json.dumps(c["reqs"]), tuple(sch)))
             for q, r, want in zip(c["reqs"], res, ref):
                 if r != want:
-                    mism.append({"class": "interleaving", "request": q, "schedule": sch, "limit": c["limit"],
+                    mism.append({"class": "interleaving", "request": q, "schedule": sch, "limit": limit, "stops_after_ops_too": after,
                                  "got": (r or "None")[:500], "sequential": want[:500], "case": c})
         # after a grammar change: the first accesses to every cache find it stale; two threads race through
         # ParseCache._drop_stale, pre-empted at LINE level inside the cache methods
@@ -755,7 +902,7 @@ def main():
     a = ap.parse_args()
     t0 = time.time()
     if a.mode == "c08":
-        cases = [c08_case(a.seed, k) for k in range(a.n)]
+        cases = (c08_fixed() if a.seed % 100 == 0 else []) + [c08_case(a.seed, k) for k in range(a.n)]
         plan, mism, stats, distinct = run_c08(cases)
         samples = [{"grammar": c["grammar"]["rules"], "default_limit": c["dflt"], "op": op, "observed": impl[:300]}
                    for c, op, impl in plan[:: max(1, len(plan) // 4)][:4]]
